@@ -51,6 +51,7 @@ def main():
         n = rng.randint(9, 60)
         w = [rng.random() for _ in range(4)] + [rng.random() * 0.02]
         cases.append(rng.choices([0, 1, 2, 3, 4], weights=w, k=n))
+    cases = vplib.replay_cases() or cases
     c.cov["rule"] = ("every multiset of the 5 leap values of size <= %d through vote_leap and combine (exhaustive), "
                      "each also in a shuffled order, plus random selections of 9-60 sources; a case is non-trivial "
                      "when it contains at least two sources; distinct = distinct ordered lists" % maxlen)
